@@ -1,7 +1,10 @@
 HOOK_COMMITS = ["1ff129b", "a99d5e7"]
-FIX_COMMITS = ["4e1b160", "0b73798", "872da6d", "b5a5c41", "ada87a3", "a2a8667", "23387d2", "95cd43f", "1d40f2f"]
+FIX_COMMITS = ["4e1b160", "0b73798", "872da6d", "b5a5c41", "ada87a3", "a2a8667", "23387d2", "95cd43f", "1d40f2f", "9fea99c", "bc380c0"]
 NOTES = "See DESIGN.md. Every check rebuilds the Lean property module, audits axioms, rebuilds the harness from /repo's working tree (content-hash cache) and runs the ties."
-NOT_APPLICABLE = {}
+NOT_APPLICABLE = {
+ "C18": "not claimed yet: the snapshot tie (dump of the quiescent structure judged by Lean well-formedness functions) is not built; traversal/size agreement is only indirectly exercised by C13-C16/C20",
+ "C19": "not claimed yet: no client drives the thread-safe iterators; planned (iterator operations in the list/hashset clients + relational oracle)",
+}
 CHECKS = {
  "C09": {
   "category": "translation_validation",
@@ -145,4 +148,57 @@ CHECKS = {
  'text': "No kernel model yet: a request executed twice, never, or answered before execution breaks the container's history and is caught by the verified checker; mutual exclusion of combiners "
          'likewise. Reclamation of publication records is judged by an allocator that keeps freed records readable and checks reachability from the publication list at the moment of free. This check '
          'found the compact_list defect (fixed).'},
+ "C04": {'category': 'proof',
+ 'note': 'SC interleavings only (threads serialised by a baton at every atomic operation); explored schedules only for the history/oracle ties; memory orders not modelled; Lean kernel + '
+         'propext/Classical.choice/Quot.sound. general_threaded and signal_buffered (OS thread / signals) are not run; std::mutex replaced by the spin lock through the template parameter; the buffer '
+         'is an atomic bag in the model (its queue is judged by C07).',
+ 'technique': 'Lean 4: inductive invariants over an atomic-step machine of the general-purpose RCU (two-phase flip, nesting, epoch tagging, buffer overflow, destruct) for all schedules and thread '
+              'counts + oracles evaluated on the real general_instant/general_buffered under a deterministic scheduler',
+ 'text': 'C04_grace_period, C04_no_dispose_under_preexisting_reader (both general flavours, including the epoch-tag lemma), C04_nested are Lean theorems about a hand model of gp.h/gpi.h/gpb.h. The '
+         'model is tied to the code by oracles on the real execution (disposer-time check against every open critical section that began before the retire, synchronize-return check, deref of '
+         'poisoned objects), 30000+ schedules per run including buffer capacity 1 and overflow; the trace-conformance replay of this machine is not wired yet (named in the evidence).'},
+ "C05": {'category': 'proof',
+ 'note': 'SC interleavings only (threads serialised by a baton at every atomic operation); explored schedules only for the history/oracle ties; memory orders not modelled; Lean kernel + '
+         'propext/Classical.choice/Quot.sound. same limits as C04.',
+ 'technique': 'Lean 4: conservation invariant (every retired object in exactly one place) and exactly-once theorems over the same RCU machine incl. destruct + per-object disposer counters on the '
+              'real code',
+ 'text': 'C05_at_most_once, C05_only_after_retire, C05_only_after_grace_period, C05_conservation, C05_all_disposed_after_destruct are Lean theorems about the RCU machine (including the element whose '
+         'push failed on a full buffer and the pushed-back element with a newer epoch). The real flavours are run with per-object counters checked after destruction of the singleton.'},
+ "C12": {'category': 'proof',
+ 'note': 'SC interleavings only (threads serialised by a baton at every atomic operation); explored schedules only for the history/oracle ties; memory orders not modelled; Lean kernel + '
+         'propext/Classical.choice/Quot.sound. counters are Nat (no 2^64 wrap); capacity rounded to a multiple of 8 by the constructor after the fix commit.',
+ 'technique': 'Lean 4: invariant proofs over a two-thread atomic-step machine of the typed ring buffer (all interleavings, any capacity and batch sizes) tied by trace conformance; proved sequential '
+              'model of the variable-size record layout; byte-exact consumer oracle on the real void buffer',
+ 'text': "C12_typed_fifo, buffer content, push/pop failure characterisations and never-overwrites are theorems about the machine that the real typed buffer's traces are replayed against step by step "
+         "(3000+ traces per run). The void variant's record layout (headers, tail markers, wrap) is a proved sequential model over the translated size helpers; its producer/consumer interleavings "
+         'are decided by the byte-exact oracle on explored schedules.'},
+ "C08": {'category': 'exploration',
+ 'note': 'SC interleavings only (threads serialised by a baton at every atomic operation); explored schedules only for the history/oracle ties; memory orders not modelled; Lean kernel + '
+         'propext/Classical.choice/Quot.sound.',
+ 'technique': 'oracles over self-recorded real-time histories of the real SegmentedQueue (conservation, quasi bound in its sound real-time reading, empty rule) under a deterministic scheduler with a '
+              'deterministic permutation generator; no Lean model yet',
+ 'text': 'Decided on explored schedules only. The Lean side currently contributes only the verified checker infrastructure; a segmented-queue model is not written.'},
+ "C17": {'category': 'translation_validation',
+ 'note': 'sequential growth only; concurrent resizes are judged by C14/C16.',
+ 'technique': 'single-threaded differential runs of CuckooSet/StripedSet/SplitListSet growth against a std::set reference after every operation, with degenerate hash families; Lean theorems for the '
+              "split-order (C27) and Feldman (C28) parts of 'growth moves nothing it should not'",
+ 'text': 'SplitList growth never moves an element and Feldman expansion moves one element one level: these parts rest on the C27/C28 theorems. Striped and cuckoo rehash have no Lean model yet: '
+         'decided exactly (single-threaded) on generated sequences. The CuckooSet::resize drop is a recorded known finding with a kept witness.'},
+ "C20": {'category': 'translation_validation',
+ 'note': 'variants are those instantiated by the harness clients, not the full trait matrix of test/unit.',
+ 'technique': 'single-threaded operation sequences on every variant of every client judged against the strict Lean reference specifications by the verified checker; spec laws of update() as Lean '
+              'theorems',
+ 'text': 'About 190 container variants x 2500 sequences per quick run; return values and payloads observed through functors are compared with Spec.map/fifo/bfifo/lifo/deque/maxpq. size/empty/clear, '
+         'functor call counts and disposer counts are only partly covered (named in the evidence).'},
+ "C21": {'category': 'exploration',
+ 'note': 'SC interleavings only (threads serialised by a baton at every atomic operation); explored schedules only for the history/oracle ties; memory orders not modelled; Lean kernel + '
+         'propext/Classical.choice/Quot.sound.',
+ 'technique': 'ownership oracles on the real FreeList/TaggedFreeList/CachedFreeList under a deterministic scheduler (double hand-out, invented node, quiescent drain returns exactly the '
+              'put-and-not-taken set); Lean model in progress',
+ 'text': "Decided on explored schedules only, including the re-add-while-referenced race; the client's own history can additionally be judged against Spec.bag."},
+ "C24": {'category': 'exploration',
+ 'note': 'SC interleavings only (threads serialised by a baton at every atomic operation); explored schedules only for the history/oracle ties; memory orders not modelled; Lean kernel + '
+         'propext/Classical.choice/Quot.sound.',
+ 'technique': 'ownership / marker / preallocated-range oracles on the real vyukov_queue_pool, lazy, bounded pools and pool_allocator under a deterministic scheduler, up to and past capacity',
+ 'text': 'Decided on explored schedules only; rests on C07 for the underlying queue.'},
 }
